@@ -277,7 +277,7 @@ class C10Check:
         import halmos.__main__ as hm
 
         sc = Scenario(ch)
-        solver = ch.choose(["yices", "yices", "z3"], "sw.solver")
+        solver = ch.choose(["yices", "yices", "yices", "yices", "yices", "z3"], "sw.solver")
         threads = ch.choose([1, 2], "sw.threads")
         args = R.make_args(solver_threads=threads, panic_error_codes={1}, **sc.options)
         cj = sc.artifacts("T")
